@@ -5,6 +5,14 @@ ROOT = os.path.dirname(os.path.dirname(os.path.abspath(__file__)))
 
 CLAIMED = {
  # id: (category, text, note, technique, design_ref)
+ "C05": ("exploration",
+         "Seeded simulation of five CPC replicas of one lg_k (two on a shared ordered channel with duplicates; three on their own at-least-once channels with reordering, duplication, loss/retransmit) fed crafted (row,col) streams that walk every flavor and window offset up to 56; after every delivery num_coupons equals the model popcount, and at every flavor/offset change, scripted checkpoints and quiescence the reconstructed bit matrix, validate(), window offset, window allocation and soundness of first_interesting_column are checked against the bit-matrix model; identical sequences must give bit-identical estimates and all replicas converge.",
+         "Trusted: bit-matrix model and the documented offset/flavor thresholds computed in wide integers. Streams are restricted to left-packed matrices (the surprising-value table holds at most 24K entries in every implementation); see DESIGN.md.",
+         "deterministic simulation: replicas under reordered/duplicated/lossy delivery vs bit-matrix reference model", "DESIGN.md §4 C05"),
+ "C06": ("exploration",
+         "Seeded simulation of a CPC aggregation tree: workers steered into every flavor flush sketches in memory or as serialized images over an at-least-once network (reorder, duplicate, loss) to aggregators holding CpcUnion and on to a root; after every delivery the union's lg_k, num_coupons and to_sketch() result (matrix, validate, offset/window/first_interesting_column consistency, merged flag, image without HIP) are compared with the OR of the folded input matrices.",
+         "Trusted: OR-of-folded-matrices model; wire deliveries use the real serialize/deserialize (C11's subject).",
+         "deterministic simulation: at-least-once network with reorder/dup/loss feeding unions vs OR-of-matrices model", "DESIGN.md §4 C06"),
  "C02": ("exploration",
          "Seeded simulation of six HLL replicas (Hll4/6/8 on a shared ordered channel with duplicates; Hll4/6/8 each on its own at-least-once channel with reordering, duplication and loss/retransmit) fed crafted coupon streams that force every promotion, Hll4 cur_min shifts with a live aux map and register values to 63; each replica is compared with the textbook per-slot-maximum model of exactly what it was delivered (state hook and independently decoded serialize() image), the three types must agree bit-for-bit on estimate and bounds after every shared delivery, and all replicas must converge at quiescence. Sampling of schedules and streams, not proof.",
          "Trusted: the model in sim/src/model/hll.rs, the independent image decoder, C16 for item->coupon. The deciding oracle is the per-replica model; the network contributes permutations and multiplicities.",
